@@ -20,7 +20,9 @@ from .. import core, parsers, rig, worlds
 
 ID = "C08"
 
-BASE = {"prog.cc": b"int main(){}\n", "key.asc": b"-----\n", "caf\udce9.txt": b"latin-1 file name\n", "notes.txt.old.txt": b"n\n", "a.txt-b.txt": b"ab\n", "index.html.bak.html": b"<html><body>no title</body></html>\n", "a.txt": b"A\n", "b.html": worlds.HTML, "c.txt.gz": worlds.gz(b"c\n"), "d": {"inner.txt": b"i\n"}, "sub": {"x.txt": b"x\n"}, "a.txt.abstract": b"sidecar abstract of a\n", "e.txt": b"E\n"}
+BASE = {"prog.cc": b"int main(){}\n", "key.asc": b"-----\n", "caf\udce9.txt": b"latin-1 file name\n", "notes.txt.old.txt": b"n\n", "a.txt-b.txt": b"ab\n", "index.html.bak.html": b"<html><body>no title</body></html>\n", "a.txt": b"A\n", "b.html": worlds.HTML, "c.txt.gz": worlds.gz(b"c\n"), "d": {"inner.txt": b"i\n"}, "sub": {"x.txt": b"x\n"}, "a.txt.abstract": b"sidecar abstract of a\n", "e.txt": b"E\n",
+        # titles whose order differs from the order of the file names once the extension is gone; extensions that are not lower case
+        "notes-old.txt": b"no\n", "notes.txt": b"n\n", "CHANGES.TXT": b"ch\n", "Readme.Txt": b"r\n", "page.HTML": b"<html><body>p</body></html>\n"}
 
 # block = list of lines (bytes); kind o = override of ./target, n = new entry
 O = lambda target, *lines: ("o", target, [b"Path=./" + target] + list(lines))  # noqa: E731
@@ -47,6 +49,11 @@ BLOCKS = [
     N(b"Type=1", b"Path=/untitled", b"Host=h.example", b"Port=70"),
     N(b"Name=No Type", b"Path=/notype", b"Host=+", b"Port=+"),
     N(b"Name=Bare Path", b"Type=1", b"Path=/bare"),
+    # a line longer than any line buffer, followed by more lines of the same block
+    O(b"e.txt", b"Abstract=" + (b"long abstract " * 120).strip(), b"Name=After Long Line", b"Numb=5"),
+    N(b"Name=" + (b"Long Title " * 100).strip(), b"Type=0", b"Path=/long", b"Host=+", b"Port=+", b"Numb=6"),
+    # relative paths written with a trailing slash still name the directory
+    O(b"d/", b"Name=Dir With Slash", b"Numb=7"), O(b"sub/", b"Type=X"),
     # the two blocks whose every subset of lines (with the Path) is tried, forwards and backwards
     N(b"Name=Rich New", b"Type=1", b"Path=/rich", b"Host=rich.example", b"Port=7071", b"Numb=4", b"Abstract=rich abstract"),
     O(b"e.txt", b"Name=Rich Override", b"Type=1", b"Host=rich.example", b"Port=7071", b"Numb=4", b"Abstract=rich override"),
@@ -124,7 +131,7 @@ def expected(base, capfiles, linkfiles):
         for kind, target, lines in linkfiles[fname]:
             f = parse_block(lines)
             if kind == "o":
-                sel = b"/t/" + target
+                sel = b"/t/" + target.rstrip(b"/")  # "a trailing slash is removed from the path"
                 if sel not in ents:
                     continue
                 if f.get("type") in (b"X", b"-"):
@@ -240,12 +247,13 @@ def check_case(capfiles, linkfiles, extstrip="nonencoded"):
                     from .c04 import ref_mime
 
                     t, encoding = ref_mime(fn)
-                    must_strip = e["type"] != b"1" and t is not None and (extstrip == "full" or (extstrip == "nonencoded" and not encoding))
+                    # (how an extension that is not written in lower case is treated is not documented: either way)
+                    must_strip = e["type"] != b"1" and t is not None and (extstrip == "full" or (extstrip == "nonencoded" and not encoding)) and any(fn.endswith(sfx.encode()) if isinstance(sfx, str) else fn.endswith(sfx) for sfx in _known_suffixes(fn))
                     if must_strip:
                         return ("extstrip", "extstrip=%s: %r has the known type %s but its extension is not stripped" % (extstrip, fn, t))
                     continue
                 removed = fn[len(e["name"]):] if fn.startswith(e["name"]) else None
-                if removed is None or removed not in _known_suffixes(fn):
+                if removed is None or not ({removed, removed.lower()} & _known_suffixes(fn)):
                     return ("extstrip", "display name %r is not the file name %r minus ONE known extension of its type (removed %r)" % (e["name"], fn, removed))
     finally:
         w.destroy()
@@ -326,7 +334,7 @@ def run(ck):
         if not any(_conflict(a, b) for a, b in itertools.combinations(c, 2)):
             items.append(("links", c, "nonencoded"))
     for i in range(n):
-        if BLOCKS[i][0] == "o":
+        if BLOCKS[i][0] == "o" and not BLOCKS[i][1].endswith(b"/"):
             items.append(("cap", (i,), "nonencoded"))
             for j in range(n):
                 if j != i and not _conflict(i, j):
